@@ -861,6 +861,10 @@ func Run(r *vk.Run) {
 	}
 	close(ch)
 	wg.Wait()
+	for i := 0; i < r.N(6, 24); i++ {
+		i := i
+		r.Guard(map[string]any{"tip_withheld_case": i}, func() { runFullTipWithheld(r, keys, i) })
+	}
 }
 
 // waitD waits (generously) until the reported DA-included height equals want. It returns false if that does not
